@@ -29,7 +29,7 @@ from enum import Enum
 from typing import Annotated, Generic, List, Literal, NewType, Optional, TypeVar, Union
 from apischema import Undefined, UndefinedType, alias, schema, type_name
 from apischema.graphql import ID, interface, resolver
-from apischema.metadata import flatten
+from apischema.metadata import flatten, required
 
 
 class Color(Enum):
@@ -176,6 +176,8 @@ def module_source(model: dict) -> str:
                 md.append(f"alias({f['alias']!r})")
             if f["flat"]:
                 md.append("flatten")
+            if f["def"]["k"] == "reqval":
+                md.append("required")
             args = []
             d = default_expr(f["def"], True)
             if d is not None:
